@@ -138,7 +138,11 @@ class LabelProbabilityInjector(Injector):
         undefined_classes = [k for k in all_classes if k not in class_probabilities]
 
         # specified class probabilities must sum to 1 or less
-        if sum(class_probabilities.values()) > 1.0:
+        # (up to rounding: a valid distribution may sum to 1.0000000000000002)
+        total_probability = sum(class_probabilities.values())
+        if total_probability > 1.0 and not np.isclose(
+            total_probability, 1.0, rtol=0, atol=1e-12
+        ):
             raise ValueError(f"Probabilities in {class_probabilities} exceed 1")
 
         # args should not specify previously unseen classes
